@@ -122,7 +122,7 @@ func (l *flakyLayer) Uncompressed() (io.ReadCloser, error) {
 	if err != nil || fc == 0 || n != fc {
 		return rc, err
 	}
-	return &cutReader{rc: rc, left: at, onFire: func() { l.mu.Lock(); l.fired++; l.mu.Unlock() }}, nil
+	return &cutReader{rc: rc, left: at, oddCut: at%2 == 1, onFire: func() { l.mu.Lock(); l.fired++; l.mu.Unlock() }}, nil
 }
 
 func (l *flakyLayer) arm(call int, at int64) {
@@ -144,6 +144,7 @@ type cutReader struct {
 	left   int64
 	onFire func()
 	fired  bool
+	oddCut bool
 }
 
 func (c *cutReader) Read(p []byte) (int, error) {
@@ -162,7 +163,15 @@ func (c *cutReader) Read(p []byte) (int, error) {
 	return n, err
 }
 
-func (c *cutReader) Close() error { return c.rc.Close() }
+// Close: a connection that was reset while being read reports the reset again when closed (for
+// cut positions at odd offsets; the others close quietly).
+func (c *cutReader) Close() error {
+	err := c.rc.Close()
+	if c.fired && c.left%2 == 0 && c.oddCut {
+		return errConnReset
+	}
+	return err
+}
 
 // layout names the way the stream is placed into an image.
 //
